@@ -44,6 +44,8 @@ var clockSteps = []time.Duration{0, 1, 999, 1000, 500 * time.Microsecond, 400 * 
 var grans = []time.Duration{1, 1, time.Microsecond, time.Second, 2 * time.Second}
 
 type c36run struct {
+	strat   simrt.Strategy
+	crowd   int // >0: the package starts out with that many further compilable files (large packages)
 	steps   []step
 	gran    time.Duration
 	self    bool
@@ -57,13 +59,23 @@ type c36run struct {
 
 func (c36) NewRun(plan *simrt.Source, job *harn.Job) harn.Run {
 	r := &c36run{extra: map[string]int{}}
+	r.strat.Kind = plan.Draw(2) // uniform or sticky, should the code under test ever start goroutines
+	r.strat.StickyP = 600
 	r.gran = grans[plan.Draw(len(grans))]
 	r.self = plan.Chance(500)
 	n := 4 + plan.Draw(26)
 	if job.Tier == "thorough" {
 		n = 4 + plan.Draw(57)
 	}
+	if plan.Chance(80) {
+		// a large package: sizes around the thresholds where implementations switch
+		// strategy (batching, parallel stat, buffer growth)
+		r.crowd = []int{16, 31, 32, 33, 64, 65}[plan.Draw(6)]
+	}
 	name := func() string {
+		if r.crowd > 0 && plan.Chance(500) {
+			return crowdName(plan.Draw(r.crowd))
+		}
 		if plan.Chance(650) {
 			return compilable[plan.Draw(len(compilable))]
 		}
@@ -75,8 +87,8 @@ func (c36) NewRun(plan *simrt.Source, job *harn.Job) harn.Run {
 		s := step{Kind: kinds[plan.Draw(len(kinds))], Name: name(), Name2: name(), Size: plan.Draw(40), Clock: plan.Draw(len(clockSteps))}
 		r.steps = append(r.steps, s)
 	}
-	r.work = append(r.work, fmt.Sprintf("mtime granularity %v, self=%v", r.gran, r.self))
-	h := uint64(14695981039346656037) ^ uint64(r.gran)
+	r.work = append(r.work, fmt.Sprintf("mtime granularity %v, self=%v, %d further source files to begin with", r.gran, r.self, r.crowd))
+	h := uint64(14695981039346656037) ^ uint64(r.gran) ^ uint64(r.crowd)<<20
 	for _, s := range r.steps {
 		d := fmt.Sprintf("%s %s %s size=%d clock%+v", s.Kind, s.Name, s.Name2, s.Size, clockSteps[s.Clock])
 		r.work = append(r.work, d)
@@ -88,8 +100,8 @@ func (c36) NewRun(plan *simrt.Source, job *harn.Job) harn.Run {
 	return r
 }
 
-func (r *c36run) Strategy() simrt.Strategy              { return simrt.Strategy{} }
-func (r *c36run) Body(s *simrt.Sim)                      {}
+func (r *c36run) Strategy() simrt.Strategy              { return r.strat }
+func (r *c36run) Body(s *simrt.Sim)                      { r.runSeq(s) }
 func (r *c36run) OnStep(s *simrt.Sim) *simrt.Failure     { return nil }
 func (r *c36run) StateSig() uint64                       { return 0 }
 func (r *c36run) OnQuiesce(s *simrt.Sim, n int) bool     { return false }
@@ -98,6 +110,11 @@ func (r *c36run) WorkHash() uint64                       { return r.whash }
 func (r *c36run) Extra() map[string]int                  { return r.extra }
 func (r *c36run) Nontrivial(res *simrt.Result) bool      { return r.judged >= 3 && r.changed >= 1 }
 func (r *c36run) Check(res *simrt.Result) *simrt.Failure { return r.failure }
+
+// crowdName is the k-th file of a large package.
+func crowdName(k int) string {
+	return fmt.Sprintf("crowd%03d%s", k, []string{".go", ".xgo", ".gop", ".gox"}[k%4])
+}
 
 // isRelevant is the reference definition: a compilable, non-underscore name.
 func isRelevant(name string) bool {
@@ -150,18 +167,19 @@ func render(p map[string]meta) string {
 	return sb.String()
 }
 
-func (r *c36run) RunSeq(sched *simrt.Source, keepLog bool) *simrt.Result {
-	res := &simrt.Result{States: map[uint64]struct{}{}, Probes: map[string]int{}, Faults: map[string]int{}}
+// runSeq is simulated goroutine 0: the history is applied step by step; the
+// code under test is sequential today, and whatever concurrency an edit adds to
+// it (the package is instrumented) is scheduled by the simulator.
+func (r *c36run) runSeq(sim *simrt.Sim) {
+	res := &seqRes{sim: sim, Probes: map[string]int{}, Faults: map[string]int{}}
+	defer res.flush()
 	fail := func(class, msg, site string) {
 		if r.failure == nil {
 			r.failure = &simrt.Failure{Class: class, Msg: msg, Sites: []string{site}}
-			res.Failure = r.failure
 		}
 	}
 	logf := func(format string, a ...interface{}) {
-		if keepLog {
-			res.Log = append(res.Log, fmt.Sprintf(format, a...))
-		}
+		sim.Logf(format, a...)
 	}
 	base := os.Getenv("VERIF_SCRATCH")
 	if base == "" {
@@ -173,13 +191,13 @@ func (r *c36run) RunSeq(sched *simrt.Source, keepLog bool) *simrt.Result {
 	pkgDir := filepath.Join(root, "pkg")
 	if err := os.MkdirAll(pkgDir, 0755); err != nil {
 		fail("harness", err.Error(), "mkdir")
-		return res
+		return
 	}
 	os.WriteFile(filepath.Join(root, "go.mod"), []byte("module example.com/c36\n\ngo 1.18\n"), 0644)
 	mod, err := tool.LoadMod(root)
 	if err != nil {
 		fail("harness", "LoadMod: "+err.Error(), "LoadMod")
-		return res
+		return
 	}
 	imp := tool.NewImporter(mod, &env.XGo{Version: "v1.0.0-sim", Root: root}, token.NewFileSet())
 	const pkgPath = "example.com/c36/pkg"
@@ -207,11 +225,19 @@ func (r *c36run) RunSeq(sched *simrt.Source, keepLog bool) *simrt.Result {
 			hash = (hash ^ uint64(s[i])) * 1099511628211
 		}
 	}
+	for k := 0; k < r.crowd; k++ {
+		p := filepath.Join(pkgDir, crowdName(k))
+		os.WriteFile(p, content(10+k%7, k), 0644)
+		stamp(p)
+	}
+	if r.crowd > 0 {
+		res.Probes[fmt.Sprintf("large-package-%d-files", r.crowd)]++
+	}
 	prevProj, _ := project(pkgDir)
 	prevHash := imp.PkgHash(pkgPath, r.self)
 	if prevHash == "" || strings.HasPrefix(prevHash, "?") {
 		fail("harness", "PkgHash returned "+prevHash, "PkgHash")
-		return res
+		return
 	}
 	exists := func(name string) bool {
 		_, err := os.Lstat(filepath.Join(pkgDir, name))
@@ -383,10 +409,26 @@ func (r *c36run) RunSeq(sched *simrt.Source, keepLog bool) *simrt.Result {
 	}
 	r.extra["steps-judged"] += r.judged
 	r.extra["relevant-changes"] += r.changed
-	res.Steps = r.judged
-	res.Switches = r.judged
-	res.SchedHash = hash
-	return res
+	sim.Mix(hash)
+}
+
+// seqRes collects fault and probe counts and hands them to the simulation.
+type seqRes struct {
+	sim            *simrt.Sim
+	Probes, Faults map[string]int
+}
+
+func (q *seqRes) flush() {
+	for k, n := range q.Probes {
+		for i := 0; i < n; i++ {
+			q.sim.Probe(k)
+		}
+	}
+	for k, n := range q.Faults {
+		for i := 0; i < n; i++ {
+			q.sim.Fault(k)
+		}
+	}
 }
 
 func kindOf(name string) string {
